@@ -461,3 +461,165 @@ def private_anchor(ctx, class_name: str, name: str, root: str, calls=(), returns
                             f"calls {sorted(calls)}): {[short(c) for c in cands]}")
     ctx_keep.add(cands[0].qualname)
     return cands[0]
+
+
+def option_interface(ck, rule, only_dests=None):
+    """What an option accepts is not narrowed with respect to the pinned command-line interface (sa/pinned_functions.json,
+    "options"): a float option stays float (an int type rejects 0.5 - the run ends in a usage error and no XMAP is written), a typed
+    option keeps a type (without one the value reaches the components as a string: `"0" == 0` is False), choices are not removed.
+    New options, wider types (int -> float) and added choices are fine."""
+    import json
+    import os
+    with open(os.path.join(os.path.dirname(os.path.dirname(__file__)), "pinned_functions.json")) as f:
+        pinned = json.load(f).get("options", {})
+    parse, nodes = option_declarations(ck)
+    n = 0
+    for node in nodes:
+        kw = {k.arg: k.value for k in node.keywords if k.arg}
+        dest = kw["dest"].value if isinstance(kw.get("dest"), ast.Constant) else None
+        if dest is None or dest not in pinned or (only_dests is not None and dest not in only_dests):
+            continue
+        n += 1
+        was = pinned[dest]
+        now_type = ast.unparse(kw["type"]) if "type" in kw else None
+        w = where(parse, node)
+        construct = f"Args.parse:{dest}"
+        if was["type"] in ("int", "float") and now_type not in ("int", "float"):
+            # a numeric type expressed through a module-level alias still counts when it resolves to int / float
+            ck.violation(rule, construct + ":type", w,
+                         f"option --{dest} was declared type={was['type']} and is now " + (f"type={now_type}" if now_type else "untyped") +
+                         ": the value reaches the components as a string (comparisons with numbers are False, arithmetic raises)",
+                         found=ast.unparse(node)[:140], required=f"type={was['type']}")
+        elif was["type"] == "float" and now_type == "int":
+            ck.violation(rule, construct + ":type", w,
+                         f"option --{dest} accepted any number (type=float) and now only integers: a value the option help allows "
+                         "(0.5) ends the run with a usage error before anything is written",
+                         found=ast.unparse(node)[:140], required="type=float")
+        else:
+            ck.ok(rule, construct + ":type", w, f"type {now_type} (pinned: {was['type']})", "")
+        if "choices" in kw:
+            try:
+                now_choices = ast.literal_eval(kw["choices"])
+            except Exception:
+                now_choices = None
+            if now_choices is not None:
+                if was["choices"] is None:
+                    bad = was["type"] in ("int", "float") and any(isinstance(c, str) for c in now_choices)
+                    if bad or was["type"] in ("int", "float"):
+                        ck.violation(rule, construct + ":choices", w,
+                                     f"option --{dest} accepted every {was['type']} and is now restricted to {now_choices}"
+                                     + (" - given as strings, which an int-typed value never equals" if bad else ""),
+                                     found=ast.unparse(kw["choices"])[:100], required="no restriction of the accepted values")
+                else:
+                    lost = [c for c in was["choices"] if c not in now_choices]
+                    ck.judge(not lost, rule, construct + ":choices", w, "every value the option accepted is still accepted",
+                             found=f"no longer accepted: {lost}" if lost else str(now_choices))
+    ck.floor(f"{rule} options compared with the pinned interface", n, 1 if only_dests else 20)
+
+
+def definitely_assigned(fn_node: ast.AST) -> Dict[int, set]:
+    """Definite assignment over the statements of one function: for every statement, the local names that are bound on *every*
+    path from the function's entry to that statement (id(stmt) -> set). A name bound only in an earlier iteration of a loop, or
+    only in one arm of a conditional, is not in the set: reading it there reads whatever an earlier iteration (or nothing) left.
+    Handles the statement kinds the repository uses (if / for / while / with / try / return / continue / break / raise)."""
+    out: Dict[int, set] = {}
+
+    def targets(t) -> set:
+        return {n.id for n in ast.walk(t) if isinstance(n, ast.Name) and isinstance(n.ctx, ast.Store)}
+
+    def walrus(e) -> set:
+        return {n.target.id for n in ast.walk(e) if isinstance(n, ast.NamedExpr) and isinstance(n.target, ast.Name)} if e is not None else set()
+
+    def block(stmts, cur: Optional[set]) -> Optional[set]:
+        # cur is None when the point is unreachable
+        for s in stmts:
+            if cur is None:
+                out[id(s)] = set()
+                continue
+            out[id(s)] = set(cur)
+            if isinstance(s, (ast.Assign, ast.AnnAssign, ast.AugAssign)):
+                if isinstance(s, ast.Assign):
+                    for t in s.targets:
+                        cur = cur | targets(t)
+                elif isinstance(s, ast.AnnAssign) and s.value is not None:
+                    cur = cur | targets(s.target)
+                cur = cur | walrus(s.value)
+            elif isinstance(s, ast.If):
+                cur = cur | walrus(s.test)
+                a = block(s.body, set(cur))
+                b = block(s.orelse, set(cur))
+                cur = b if a is None else a if b is None else (a & b)
+            elif isinstance(s, (ast.For, ast.AsyncFor)):
+                inner = block(s.body, cur | targets(s.target))
+                after = block(s.orelse, set(cur))
+                cur = after if after is not None else set(cur)
+            elif isinstance(s, ast.While):
+                block(s.body, cur | walrus(s.test))
+                endless = isinstance(s.test, ast.Constant) and bool(s.test.value)
+                cur = set(cur) | walrus(s.test)
+                if s.orelse:
+                    block(s.orelse, set(cur))
+                if endless and not any(isinstance(x, ast.Break) for x in ast.walk(s)):
+                    cur = None
+            elif isinstance(s, (ast.With, ast.AsyncWith)):
+                for it in s.items:
+                    if it.optional_vars is not None:
+                        cur = cur | targets(it.optional_vars)
+                cur = block(s.body, cur)
+            elif isinstance(s, ast.Try):
+                a = block(s.body, set(cur))
+                hs = []
+                for h in s.handlers:
+                    hs.append(block(h.body, set(cur) | ({h.name} if h.name else set())))
+                if a is not None and s.orelse:
+                    a = block(s.orelse, a)
+                alive = [x for x in [a] + hs if x is not None]
+                cur = set.intersection(*alive) if alive else None
+                if s.finalbody:
+                    f = block(s.finalbody, set(cur) if cur is not None else set())
+                    cur = f if cur is not None else None
+            elif isinstance(s, (ast.Return, ast.Raise, ast.Continue, ast.Break)):
+                cur = None
+            elif isinstance(s, (ast.FunctionDef, ast.AsyncFunctionDef, ast.ClassDef)):
+                cur = cur | {s.name}
+            elif isinstance(s, (ast.Import, ast.ImportFrom)):
+                cur = cur | {(a.asname or a.name).split(".")[0] for a in s.names}
+            elif isinstance(s, ast.Expr):
+                cur = cur | walrus(s.value)
+            elif isinstance(s, ast.Match):
+                raise AnalysisError("definite assignment: match statement not modelled")
+        return cur
+
+    a = fn_node.args
+    params = {x.arg for x in a.posonlyargs + a.args + a.kwonlyargs} | ({a.vararg.arg} if a.vararg else set()) | ({a.kwarg.arg} if a.kwarg else set())
+    block(fn_node.body, params)
+    return out
+
+
+def stale_reads(fn: FunctionInfo, stmt_filter) -> List[Tuple[ast.stmt, str]]:
+    """(statement, name) for every local name that a statement accepted by `stmt_filter` reads without it being bound on every path
+    to that statement (see definitely_assigned). Names that are not locals of the function (globals, builtins) are ignored."""
+    da = definitely_assigned(fn.node)
+    a = fn.node.args
+    locals_ = {n.id for n in ast.walk(fn.node) if isinstance(n, ast.Name) and isinstance(n.ctx, ast.Store)} | \
+        {x.arg for x in a.posonlyargs + a.args + a.kwonlyargs}
+    res = []
+    for s in ast.walk(fn.node):
+        if not isinstance(s, ast.stmt) or id(s) not in da or not stmt_filter(s):
+            continue
+        if isinstance(s, (ast.If, ast.While)):
+            own = s.test
+        elif isinstance(s, (ast.For, ast.AsyncFor)):
+            own = s.iter
+        elif isinstance(s, (ast.With, ast.AsyncWith)):
+            own = ast.Tuple(elts=[it.context_expr for it in s.items], ctx=ast.Load())
+        elif isinstance(s, (ast.Try, ast.FunctionDef, ast.AsyncFunctionDef, ast.ClassDef)):
+            continue
+        else:
+            own = s
+        comp_bound = {n.id for c in ast.walk(own) if isinstance(c, ast.comprehension) for n in ast.walk(c.target) if isinstance(n, ast.Name)} | \
+            {x.arg for l in ast.walk(own) if isinstance(l, ast.Lambda) for x in l.args.args}
+        for n in ast.walk(own):
+            if isinstance(n, ast.Name) and isinstance(n.ctx, ast.Load) and n.id in locals_ and n.id not in da[id(s)] and n.id not in comp_bound:
+                res.append((s, n.id))
+    return res
